@@ -293,6 +293,13 @@ def c12(tier):
         files = dict(files)
         files["p.go"] = bare_go
         cases.append({"id": "wf:" + vid, "files": files, "want": ""})
+    # every curated parser grammar shape of the other checks, through the command (bare Go package: the run has to end
+    # with diagnostics about missing action methods, or with 'grammar has conflicts' -- never with a crash)
+    import grams, pcase
+    shapes = grams.curated("lang") + grams.curated("err") + grams.curated("bounds") + grams.curated_conflict() + \
+        grams.chain_family()[::3] + grams.self_nesting() + grams.shift_family(3)[::5]
+    for g in shapes:
+        cases.append({"id": "shape:" + g["id"], "files": {"g.lox": pcase.render_lox(g), "p.go": bare_go}, "want": ""})
     log("C12: %d inputs (%d configurations)" % (len(cases), ncfg))
     done = pmap(lambda a: run_case(sc, lox, a[0], a[1]), list(enumerate(cases)))
     # a timeout under a loaded machine is not a hang: re-run those alone before believing it
